@@ -2,6 +2,7 @@ import Aurora.Lemmas.Upload
 import Aurora.Lemmas.SpecTree
 import Aurora.Lemmas.Joiner
 import Aurora.Lemmas.UploadPuts
+import Aurora.Lemmas.EncStored
 /-!
 # C01 — Uploaded content reads back byte-identical
 
@@ -20,9 +21,19 @@ chunks the store returns, opening reports the content length and `ReadAt` / `Rea
 sequences behave as a cursor over the content (`C01_open_size`, `C01_readAt_exact`,
 `C01_read_seek_sequence`).
 
-Encrypted mode is partial: the pipeline's encryption writer (random keys and padding) is not
-modelled; `C01_decrypting_get` shows that the decrypting store returns the plain chunk whenever
-`dec k (enc k x) = x`, which reduces encrypted reads to the plain reader theorems.
+Encrypted mode (second part of this file, `namespace Aurora.EncUpload`): the encrypted pipeline
+`Model/EncUpload.lean` (feeder → encryption → bmt → store → hashtrie with 64-byte references; keys
+and padding bytes are oracle values indexed by the position of the chunk) builds, for every
+content, segmentation and oracle, a well-formed *decorated* tree over the written bytes, `Put`s the
+encrypted chunk of every node and returns the tree's reference `address ‖ key`
+(`C01_enc_upload_builds_tree`); for the repository's constants (chunk and padding size 262144,
+branching 4096, 64-byte references), admissible draws (32-byte keys, padding up to `ChunkSize`), a
+keystream hash with digests of at least 32 bytes, 32-byte addresses and collision freedom on the
+chunks written, the decrypting getter over the upload's Puts returns every plain chunk of that tree
+(`C01_enc_upload_then_stored`, from C08's theorems), and on any such tree opening reports the
+content length and `ReadAt` / `Read` / `Seek` sequences behave as a cursor over the content
+(`C01_enc_open_size`, `C01_enc_readAt_exact`, `C01_enc_read_seek_sequence`), end to end in
+`C01_enc_upload_read_back`.  `C01_decrypting_get` (abstract `enc`/`dec`) is kept.
 -/
 namespace Aurora.Joiner
 open Aurora.Bmt (Bytes)
@@ -300,3 +311,282 @@ example : Stored (fun _ _ => [0, 0, 0, 0]) (fun _ => .ok (Aurora.Cac.le64 3 ++ [
     rfl
 
 end Aurora.Joiner
+
+/-! # Encrypted mode -/
+
+namespace Aurora.EncUpload
+open Aurora.Bmt (Bytes)
+open Aurora.Cac (le64)
+open Aurora.Tree Aurora.HashTrie Aurora.Joiner Aurora.DecryptStore
+
+section Writer
+variable (H : Bytes → Bytes) (addr : Bytes → Bytes → Bytes) (P R : Nat) (orc : Nat → Nat → Bytes × Bytes)
+
+/-- **The encrypted upload builds a well-formed encrypted tree over the written bytes, stores the
+    encrypted chunk of every node and returns the tree's reference**, for every content, every
+    segmentation (below the writer's 8-level limit) and every outcome `orc` of the random key /
+    padding draws: `e` is a decorated tree whose leaves concatenate to the data (`e.flat`; its
+    plain shape is `specTree data`), every `(address, encrypted chunk)` of `e` is in the Put log,
+    every decoration is an oracle value, and the result of `Sum` is `e.ref` = address ‖ key of the
+    root (64 bytes when addresses and keys have 32: `C01_enc_ref_length`). -/
+theorem C01_enc_upload_builds_tree (C B : Nat) (hC : 0 < C) (hB : 2 ≤ B) (segs : List Bytes)
+    (hlim : (leafData C segs.flatten).length < B ^ 7) :
+    ∃ e h, EWF C B h e ∧ e.flat = segs.flatten ∧ e.size = segs.flatten.length ∧
+      specTree C B segs.flatten = some e.plain ∧
+      (upload H addr P R orc C B segs).2 = some (e.ref (erefOf H addr P R)) ∧
+      (∀ c ∈ e.stored (erefOf H addr P R) (echunkOf H addr P R), c ∈ (upload H addr P R orc C B segs).1.puts) ∧
+      e.decBy orc := by
+  obtain ⟨e, t, ht, hpl, hroot, hputs, hdec⟩ := enc_upload_tree H addr P R orc C B hC hB segs hlim
+  obtain ⟨t', ht', ⟨h, hw⟩, hflat⟩ := specTree_WF C B hC hB segs.flatten
+  rw [ht] at ht'; injection ht' with ht'; subst ht'
+  subst hpl
+  have hewf := ewf_of_plain C B h e hw
+  have hfl : e.flat = segs.flatten := by rw [← plain_flat]; exact hflat
+  refine ⟨e, h, hewf, hfl, ?_, ht, hroot, hputs, hdec⟩
+  rw [← (EWF_flat_size C B (by omega) h e hewf).1, hfl]
+
+/-- the reference of a decorated tree is `address ‖ key` of its root: 64 bytes -/
+theorem C01_enc_ref_length (haddr : ∀ s p, (addr s p).length = 32) (e : ET) (hk : Keys32 orc) (hd : e.decBy orc) :
+    (e.ref (erefOf H addr P R)).length = 64 := by
+  cases e with
+  | leaf k p d =>
+    obtain ⟨o, ho⟩ := hd
+    have := hk o d.length; rw [← ho] at this
+    simp [ET.ref, erefOf, echunkOf, haddr, this]
+  | node k p s ks =>
+    obtain ⟨⟨o, ho⟩, _⟩ := hd
+    have := hk o s; rw [← ho] at this
+    simp [ET.ref, erefOf, echunkOf, haddr, this]
+
+/-- two segmentations of the same bytes build the same encrypted tree (same oracle) -/
+theorem C01_enc_segmentation_irrelevant (C B : Nat) (hC : 0 < C) (hB : 2 ≤ B) (segs₁ segs₂ : List Bytes)
+    (hsame : segs₁.flatten = segs₂.flatten) (hlim : (leafData C segs₁.flatten).length < B ^ 7) :
+    ∃ e₁ e₂ : ET, (upload H addr P R orc C B segs₁).2 = some (e₁.ref (erefOf H addr P R)) ∧
+      (upload H addr P R orc C B segs₂).2 = some (e₂.ref (erefOf H addr P R)) ∧ e₁.plain = e₂.plain := by
+  obtain ⟨e₁, _, _, _, _, hs1, hr1, _, _⟩ := C01_enc_upload_builds_tree H addr P R orc C B hC hB segs₁ hlim
+  obtain ⟨e₂, _, _, _, _, hs2, hr2, _, _⟩ := C01_enc_upload_builds_tree H addr P R orc C B hC hB segs₂ (hsame ▸ hlim)
+  refine ⟨e₁, e₂, hr1, hr2, ?_⟩
+  rw [hsame, hs2] at hs1
+  injection hs1 with hs1
+  exact hs1.symm
+
+end Writer
+
+section Reader
+variable (eref : Bytes → Bytes → Bytes → Bytes → Bytes) (get : Bytes → Except Aurora.Joiner.Err Bytes) (C B R : Nat)
+
+/-- **Encrypted: opening by the 64-byte reference reports the content length** -/
+theorem C01_enc_open_size (h : Nat) (t : ET) (S : EStored eref get C B R h t) :
+    ∃ j, new get (t.ref eref) = .ok j ∧ j.size = t.flat.length ∧ j = ejOf eref R t 0 := by
+  refine ⟨_, enew_spec eref get t S.small S.holds, ?_, ?_⟩
+  · simp only [J.size]
+    exact (EWF_flat_size C B (by have := S.b2; omega) h t S.wf).1.symm
+  · simp only [ejOf, ET.ref_length eref R S.refLen t]
+
+/-- **Encrypted: reads at arbitrary offsets return exactly the corresponding bytes**: `n = min len (size-off)`
+    bytes equal to `content[off, off+n)`; EOF iff `off ≥ size`. -/
+theorem C01_enc_readAt_exact (h : Nat) (t : ET) (S : EStored eref get C B R h t) (fuel : Nat) (hf : h + 1 ≤ fuel)
+    (o len : Nat) (mem : Bytes) (off : Nat) (hcap : len ≤ mem.length) :
+    let r := (ejOf eref R t o).readAt get C fuel len mem off
+    r.mem.take r.n = (t.flat.drop off).take len ∧ r.n = ((t.flat.drop off).take len).length ∧
+    (r.err = some .eof ↔ off ≥ t.flat.length) ∧ (r.err = none ↔ off < t.flat.length) := by
+  have hfl := (EWF_flat_size C B (by have := S.b2; omega) h t S.wf).1
+  simp only
+  rw [ereadAt_spec eref get C B R h t S fuel hf o len mem off hcap]
+  by_cases hoff : off ≥ t.size
+  · have e : t.flat.drop off = [] := List.drop_of_length_le (by omega)
+    simp only [hoff, ↓reduceIte, e]
+    refine ⟨by simp, by simp, by simp; omega, by simp; omega⟩
+  · simp only [hoff, ↓reduceIte]
+    have hdl : (t.flat.drop off).length = t.size - off := by simp [hfl]
+    have hlen : ((t.flat.drop off).take (min len (t.size - off))).length = min len (t.size - off) := by
+      simp only [List.length_take, hdl]; omega
+    have htk : (t.flat.drop off).take (min len (t.size - off)) = (t.flat.drop off).take len := by
+      by_cases hl : len ≤ t.size - off
+      · rw [Nat.min_eq_left hl]
+      · rw [Nat.min_eq_right (by omega), List.take_of_length_le (by omega), List.take_of_length_le (by omega)]
+    refine ⟨?_, ?_, by simp; omega, by simp; omega⟩
+    · simp only [splice, List.take_zero, List.nil_append, Nat.zero_add, hlen]
+      rw [List.take_append_of_le_length (by rw [hlen]; omega), List.take_of_length_le (by rw [hlen]; omega), htk]
+    · rw [← htk, hlen]
+
+/-- **Encrypted: sequential reads and reads after seeking return exactly the corresponding bytes**: any
+    sequence of `Read` / `Seek` calls behaves as a cursor over the content. -/
+theorem C01_enc_read_seek_sequence (h : Nat) (t : ET) (S : EStored eref get C B R h t) (fuel : Nat) (hf : h + 1 ≤ fuel)
+    (ops : List Op) (hcap : ∀ len mem, Op.read len mem ∈ ops → len ≤ mem.length) : ∀ (o : Nat),
+    runOps get C fuel (ejOf eref R t o) ops = cursorOps t.flat o ops := by
+  have hfl := (EWF_flat_size C B (by have := S.b2; omega) h t S.wf).1
+  induction ops with
+  | nil => intro o; rfl
+  | cons op rest ih =>
+    intro o
+    have ihr := ih (fun len mem hm => hcap len mem (by simp [hm]))
+    cases op with
+    | read len mem =>
+      have hc : len ≤ mem.length := hcap len mem (by simp)
+      have hex := C01_enc_readAt_exact eref get C B R h t S fuel hf o len mem o hc
+      simp only at hex
+      obtain ⟨h1, h2, h3, _⟩ := hex
+      have hrs : (ejOf eref R t o).read get C fuel len mem =
+          (ejOf eref R t (o + ((ejOf eref R t o).readAt get C fuel len mem o).n),
+            (ejOf eref R t o).readAt get C fuel len mem o) := by
+        unfold J.read
+        have hj : (ejOf eref R t o).off = o := rfl
+        rw [hj, ereadAt_spec eref get C B R h t S fuel hf o len mem o hc]
+        by_cases hoff : o ≥ t.size
+        · simp [hoff, ejOf]
+        · simp [hoff, ejOf]
+      simp only [runOps, cursorOps, hrs]
+      rw [ihr, h1, h2]
+      congr 2
+      by_cases hoff : o ≥ t.flat.length
+      · simp [h3.mpr hoff, hoff]
+      · have : ¬ ((ejOf eref R t o).readAt get C fuel len mem o).err = some IoErr.eof := fun e => hoff (h3.mp e)
+        simp [hoff]
+        intro e; exact this (by simpa using e)
+    | seek off w =>
+      simp only [runOps, cursorOps, J.seek]
+      have hspan : (ejOf eref R t o).span = t.size := rfl
+      have hoffj : (ejOf eref R t o).off = o := rfl
+      have hj : ∀ p, { ejOf eref R t o with off := p } = ejOf eref R t p := fun p => rfl
+      rw [hspan, hoffj, hfl]
+      have n02 : ¬ ((0 : Int) = 2) := by decide
+      have n12 : ¬ ((1 : Int) = 2) := by decide
+      by_cases h0 : w = 0
+      · subst h0
+        by_cases hneg : off < 0
+        · simp [hneg, ihr, n02]
+        · by_cases hbig : off > t.size
+          · simp [hneg, hbig, ihr, n02]
+          · simp [hneg, hbig, n02]; exact ihr _
+      · by_cases h1 : w = 1
+        · subst h1
+          by_cases hneg : off + (o : Int) < 0
+          · simp [hneg, ihr, n12]
+          · by_cases hbig : off + (o : Int) > t.size
+            · simp [hneg, hbig, ihr, n12]
+            · simp [hneg, hbig, n12]; exact ihr _
+        · by_cases h2 : w = 2
+          · subst h2
+            by_cases hneg : (t.size : Int) - off < 0
+            · simp [hneg, ihr]
+            · by_cases hbig : (t.size : Int) - off > t.size
+              · simp [hneg, hbig, ihr]
+              · simp [hneg, hbig]; exact ihr _
+          · simp [h0, h1, h2, ihr]
+
+
+end Reader
+
+section EndToEnd
+variable (H : Bytes → Bytes) (addr : Bytes → Bytes → Bytes) (orc : Nat → Nat → Bytes × Bytes)
+
+/-- **The law of C08 that is used**: `decryptChunkData (EncryptChunk (span ‖ data)) = span ‖ data`
+    for 32-byte keys whenever the decrypting store's length loop maps the span to `|data|`.
+    `C08_chunk_roundtrip` is the instance `span = le64 |data|`, `|data| ≤ ChunkSize` (data chunks);
+    intermediate chunks (span = subtree size, data = 64 bytes per child) need this form, which is
+    proved from the same C08 theorems (`C08_encrypt_len`, `C08_decrypt_encrypt_prefix`) and used
+    together with `C08_strip_leaf` / `C08_strip_intermediate`. -/
+theorem C01_enc_chunk_roundtrip (key pad span data es ed : Bytes)
+    (hk : key.length = 32) (hH : ∀ x, 32 ≤ (H x).length) (hspan : span.length = 8)
+    (hlen : (lengthLoop 262144 64 (u64le span)).toNat = data.length)
+    (henc : Aurora.Encryption.encryptChunk H 262144 64 key pad (span ++ data) = .ok (es, ed)) :
+    decryptChunkData H 262144 64 (es ++ ed) key = .ok (span ++ data) :=
+  chunk_roundtrip_len H key pad span data es ed hk hH hspan hlen henc
+
+/-- **Encrypted upload, then every read theorem applies** (repository constants: chunk / padding
+    size 262144, branching 4096, references of 64 bytes).  Premises: admissible draws (`Admissible`:
+    32-byte keys, padding up to `ChunkSize`), keystream digests of at least 32 bytes, 32-byte
+    addresses, content below 2^63 bytes, and collision freedom of the chunk hash on the chunks
+    written (`NoColl` on the encrypted Put log).  Then the decrypting getter over the upload's Puts
+    satisfies `EStored` for the uploaded tree under the returned 64-byte reference — so
+    `C01_enc_open_size`, `C01_enc_readAt_exact`, `C01_enc_read_seek_sequence` hold for it.
+    (`erefN` is `erefOf` with the key normalised to 32 bytes — the same reference on this tree,
+    as the first conjunct says.) -/
+theorem C01_enc_upload_then_stored (hadm : Admissible orc) (hH : ∀ x, 32 ≤ (H x).length)
+    (haddr : ∀ s p, (addr s p).length = 32) (segs : List Bytes)
+    (hlim : (leafData 262144 segs.flatten).length < 4096 ^ 7) (hsmall : segs.flatten.length < 2 ^ 63)
+    (hn : NoColl (upload H addr 262144 64 orc 262144 4096 segs).1.puts) :
+    ∃ e h, (upload H addr 262144 64 orc 262144 4096 segs).2 = some (e.ref (erefN H addr)) ∧
+      (e.ref (erefN H addr)).length = 64 ∧ e.flat = segs.flatten ∧
+      EStored (erefN H addr)
+        (encGet H 262144 64 32 (lookupPuts (upload H addr 262144 64 orc 262144 4096 segs).1.puts))
+        262144 4096 64 h e := by
+  obtain ⟨e, h, hw, hflat, hsize, _, hroot, hputs, hdec⟩ :=
+    C01_enc_upload_builds_tree H addr 262144 64 orc 262144 4096 (by decide) (by decide) segs hlim
+  have hk : Keys32 orc := fun o s => (hadm o s).1
+  obtain ⟨f1, _, f3⟩ := ref_fit H addr orc hk e hdec
+  refine ⟨e, h, by rw [f1]; exact hroot, ?_, hflat, ⟨erefN_length H addr haddr, by decide, by decide, by decide,
+    by decide, hw, by rw [hsize]; omega, ?_⟩⟩
+  · rw [f1]; exact C01_enc_ref_length H addr 262144 64 orc haddr e hk hdec
+  · apply holdsN H addr _ orc hadm hH haddr h e hw hdec (by rw [hsize]; exact hsmall)
+    intro c hc
+    rw [f3] at hc
+    obtain ⟨a, d⟩ := c
+    exact lookupPuts_mem _ hn a d (hputs (a, d) hc)
+
+/-- **Encrypted content reads back byte-identical, end to end**: upload any bytes with any
+    segmentation and any admissible key / padding draws; open the returned reference with the
+    joiner over the decrypting getter on the chunks that were `Put`: the size is the content
+    length and every `ReadAt` and every `Read` / `Seek` sequence returns exactly the written bytes. -/
+theorem C01_enc_upload_read_back (hadm : Admissible orc) (hH : ∀ x, 32 ≤ (H x).length)
+    (haddr : ∀ s p, (addr s p).length = 32) (segs : List Bytes)
+    (hlim : (leafData 262144 segs.flatten).length < 4096 ^ 7) (hsmall : segs.flatten.length < 2 ^ 63)
+    (hn : NoColl (upload H addr 262144 64 orc 262144 4096 segs).1.puts) :
+    let get := encGet H 262144 64 32 (lookupPuts (upload H addr 262144 64 orc 262144 4096 segs).1.puts)
+    ∃ ref j, (upload H addr 262144 64 orc 262144 4096 segs).2 = some ref ∧ ref.length = 64 ∧
+      Aurora.Joiner.new get ref = .ok j ∧ j.size = segs.flatten.length ∧ j.off = 0 ∧
+      ∃ fuel, (∀ (len : Nat) (mem : Bytes) (off : Nat), len ≤ mem.length →
+          let r := j.readAt get 262144 fuel len mem off
+          r.mem.take r.n = (segs.flatten.drop off).take len ∧ r.n = ((segs.flatten.drop off).take len).length ∧
+          (r.err = some .eof ↔ off ≥ segs.flatten.length) ∧ (r.err = none ↔ off < segs.flatten.length)) ∧
+        (∀ ops : List Op, (∀ len mem, Op.read len mem ∈ ops → len ≤ mem.length) →
+          runOps get 262144 fuel j ops = cursorOps segs.flatten 0 ops) := by
+  intro get
+  obtain ⟨e, h, hroot, hlen, hflat, S⟩ := C01_enc_upload_then_stored H addr orc hadm hH haddr segs hlim hsmall hn
+  obtain ⟨j, hj, hjs, hjo⟩ := C01_enc_open_size (erefN H addr) get 262144 4096 64 h e S
+  refine ⟨_, j, hroot, hlen, hj, by rw [hjs, hflat], by rw [hjo]; rfl, h + 1, ?_, ?_⟩
+  · intro len mem off hcap
+    have := C01_enc_readAt_exact (erefN H addr) get 262144 4096 64 h e S (h + 1) (Nat.le_refl _) 0 len mem off hcap
+    rw [hflat, ← hjo] at this
+    exact this
+  · intro ops hcap
+    have := C01_enc_read_seek_sequence (erefN H addr) get 262144 4096 64 h e S (h + 1) (Nat.le_refl _) ops hcap 0
+    rw [hflat, ← hjo] at this
+    exact this
+
+/-! Non-vacuity of the premises: the all-zero draws of the right lengths are admissible; the
+    repository's instance `262144 / 64 = 4096`; a keystream hash and an address function of
+    32-byte outputs exist; a Put log with one content per address is collision free; and the
+    reader premise `EStored` is satisfiable (one-chunk encrypted file, toy constant-length reference
+    function). -/
+example : Admissible (fun _ s => (List.replicate 32 0,
+    List.replicate (262144 - (lengthLoop 262144 64 (UInt64.ofNat s)).toNat) 0)) := by
+  intro o s; simp
+example : (262144 : Nat) / 64 = 4096 ∧ encBranching = 4096 ∧ chunkBytes = 262144 := by decide
+example : (∀ x : Bytes, 32 ≤ ((fun _ => List.replicate 32 (0 : UInt8)) x).length) ∧
+    (∀ s p : Bytes, ((fun _ _ => List.replicate 32 (0 : UInt8)) s p).length = 32) := by simp
+example (a d : Bytes) : NoColl [(a, d)] := by
+  intro b d₁ d₂ h1 h2
+  simp at h1 h2
+  rw [h1.2, h2.2]
+example : EStored (fun _ _ _ _ => [0, 0, 0, 0]) (fun _ => .ok (le64 3 ++ [1, 2, 3])) 8 2 4 0 (.leaf [7] [9] [1, 2, 3]) where
+  refLen := by intro _ _ _ _; rfl
+  rpos := by decide
+  branching := by decide
+  b2 := by decide
+  c1 := by decide
+  wf := ⟨[7], [9], [1, 2, 3], rfl, by decide⟩
+  small := by simp [ET.size]
+  holds := by
+    intro x hx
+    simp [ET.chunks] at hx
+    subst hx
+    rfl
+/-- the premises of `C01_enc_upload_builds_tree` hold for the empty file with the repository's
+    constants (one data chunk, far below the level limit) -/
+example : (leafData 262144 ([] : List Bytes).flatten).length < 4096 ^ 7 := by decide
+
+end EndToEnd
+
+end Aurora.EncUpload
